@@ -724,3 +724,70 @@ func (g *grounder) seedPointwise(p *Program) {
 		}
 	}
 }
+
+// abstractNonlinear replaces products of two non-literal terms and divisions by non-literal terms with applications of
+// uninterpreted functions. The result is weaker (only congruence is known about them), so "unsat" still proves the
+// obligation; it keeps the solvers' nonlinear engines out of goals that only need equalities to propagate.
+func abstractNonlinear(t *Term, memo map[*Term]*Term) *Term {
+	if r, ok := memo[t]; ok {
+		return r
+	}
+	if len(t.Args) == 0 {
+		memo[t] = t
+		return t
+	}
+	args := make([]*Term, len(t.Args))
+	changed := false
+	for i, a := range t.Args {
+		args[i] = abstractNonlinear(a, memo)
+		if args[i] != a {
+			changed = true
+		}
+	}
+	var r *Term
+	nonlit := 0
+	for _, a := range args {
+		if a.kind != tIntLit && a.kind != tRealLit {
+			nonlit++
+		}
+	}
+	switch {
+	case t.kind == tApp && t.Op == "*" && t.Sort == SInt && nonlit >= 2:
+		// commutative: order the arguments
+		as := append([]*Term(nil), args...)
+		for i := 0; i < len(as); i++ {
+			for j := i + 1; j < len(as); j++ {
+				if as[j].id < as[i].id {
+					as[i], as[j] = as[j], as[i]
+				}
+			}
+		}
+		r = as[0]
+		for _, a := range as[1:] {
+			r = UF("nl!mul", SInt, r, a)
+		}
+	case t.kind == tApp && (t.Op == "div" || t.Op == "mod" || t.Op == "tdiv") && len(args) == 2 && args[1].kind != tIntLit:
+		r = UF("nl!"+t.Op, SInt, args[0], args[1])
+	default:
+		r = t
+		if changed {
+			n := *t
+			n.Args = args
+			n.id = 0
+			r = intern(&n)
+		}
+	}
+	memo[t] = r
+	return r
+}
+
+func abstractObligation(o *Obligation) *Obligation {
+	memo := map[*Term]*Term{}
+	n := *o
+	n.Assumes = make([]*Term, len(o.Assumes))
+	for i, a := range o.Assumes {
+		n.Assumes[i] = abstractNonlinear(a, memo)
+	}
+	n.Goal = abstractNonlinear(o.Goal, memo)
+	return &n
+}
